@@ -251,6 +251,11 @@ func genCfg(rng *vh.Rng, hostile bool) Cfg {
 	} else if rng.Intn(6) == 0 {
 		// the shape the MI300A platform uses: a bank-selection converter only
 		c.BConv = &Ilv{Size: 4096, Total: 4, Index: uint64(rng.Intn(4))}
+	} else if rng.Intn(7) == 0 {
+		// private storage addressed locally: a storage address converter (the
+		// traffic stays inside the element it belongs to)
+		c.AConv = &Ilv{Size: 4096, Total: uint64(2 + 2*rng.Intn(2)), Index: 0}
+		c.AConv.Index = uint64(rng.Intn(int(c.AConv.Total)))
 	} else if rng.Intn(2) == 0 {
 		// capacities that are not a multiple of the stripe (banks << log2ilv), of
 		// the row, or of the 4 KiB storage unit; the traffic then also goes to the
@@ -275,6 +280,10 @@ func generate(rng *vh.Rng, hostile bool) Case {
 	r := newRunner(c.Cfg)
 	// a small pool of hot addresses so that requests conflict; spread so that
 	// several rows of one bank and several banks are touched
+	elem := c.Cfg.BConv
+	if elem == nil {
+		elem = c.Cfg.AConv
+	}
 	npool := 2 + rng.Intn(5)
 	pool := make([]uint64, npool)
 	for i := range pool {
@@ -288,15 +297,15 @@ func generate(rng *vh.Rng, hostile bool) Case {
 		default:
 			pool[i] = uint64(rng.Intn(1 << 14))
 		}
-		if c.Cfg.BConv != nil && !hostile {
+		if elem != nil && !hostile {
 			// stay inside the element the converter belongs to
-			b := c.Cfg.BConv
+			b := elem
 			pool[i] = (pool[i]/b.Size*b.Total+b.Index)*b.Size + pool[i]%b.Size
 		}
 	}
 	// the top of the configured capacity: last byte, last 64-byte line, last
 	// interleave unit, around the last stripe boundary, around the last 4 KiB unit
-	topClass := !hostile && c.Cfg.BConv == nil && c.Cfg.Capacity < 1<<32
+	topClass := !hostile && elem == nil && c.Cfg.Capacity < 1<<32
 	var top []uint64
 	if topClass {
 		capa := c.Cfg.Capacity
@@ -330,8 +339,8 @@ func generate(rng *vh.Rng, hostile bool) Case {
 				addr -= uint64(rng.Intn(40)) // may straddle the interleave boundary below
 			}
 		}
-		if c.Cfg.BConv != nil && !hostile {
-			b := c.Cfg.BConv
+		if elem != nil && !hostile {
+			b := elem
 			if (addr/b.Size)%b.Total != b.Index {
 				addr = pool[0]
 			}
@@ -436,8 +445,8 @@ func generate(rng *vh.Rng, hostile bool) Case {
 			stride = r
 		}
 		stride *= uint64(c.Cfg.Banks)
-		if c.Cfg.BConv != nil {
-			stride *= c.Cfg.BConv.Total * c.Cfg.BConv.Size // stays in the same element
+		if elem != nil {
+			stride *= elem.Total * elem.Size // stays in the same element
 		}
 		d := stride * uint64(1+rng.Intn(3))
 		pa := m.Addr + d
@@ -485,7 +494,7 @@ func generate(rng *vh.Rng, hostile bool) Case {
 		case 7:
 			// same-cycle burst on a hot block: ranges that overlap partially from
 			// either side, the same range read again around writes, several sources
-			if !hostile && c.Cfg.BConv == nil {
+			if !hostile && elem == nil {
 				if rng.Bool() {
 					step(Event{E: "tick"}) // empty the port first so that the burst arrives in one cycle
 				}
@@ -535,7 +544,7 @@ func generate(rng *vh.Rng, hostile bool) Case {
 		case 8:
 			// an access straddling a 4 KiB storage-unit boundary, then reads wholly
 			// below, wholly above and across it
-			if !hostile && c.Cfg.BConv == nil && c.Cfg.Capacity >= 1<<16 {
+			if !hostile && elem == nil && c.Cfg.Capacity >= 1<<16 {
 				bd := uint64(4096 * (1 + rng.Intn(15)))
 				below := uint64(1 + rng.Intn(63))
 				above := uint64(1 + rng.Intn(64-int(below)+1))
